@@ -28,7 +28,7 @@ def digest(res):
     return h.hexdigest()
 
 
-def run_fuse(pair, out_fn, rng=None, threads=2, fault=None, controlled=True, timeout=120, **kw):
+def run_fuse(pair, out_fn, rng=None, threads=2, fault=None, controlled=True, timeout=120, task_order='fifo', **kw):
     """RasterFuse.process under interposition.  Returns dict(outcome, rec, result, wall, closed, reusable)."""
     from homonim import RasterFuse, Model
     from homonim.enums import ProcCrs
@@ -37,7 +37,7 @@ def run_fuse(pair, out_fn, rng=None, threads=2, fault=None, controlled=True, tim
     roles = {pair['src_fn']: 'src', pair['ref_fn']: 'ref', out_fn: 'corr'}
     if param_fn:
         roles[param_fn] = 'param'
-    rec = ip.Recorder(roles, rng=rng, fault=fault, controlled=controlled)
+    rec = ip.Recorder(roles, rng=rng, fault=fault, controlled=controlled, task_order=task_order)
     box = {}
 
     def body():
